@@ -6,6 +6,7 @@ import (
 	"math/big"
 	"math/rand"
 	"os"
+	"perun.network/go-perun/channel"
 	"strings"
 	"sync"
 
@@ -151,6 +152,15 @@ func Evaluate(s sink.Sink, prop string, r *scen.Run, completed, sample bool) {
 				break
 			}
 		}
+		var nestedLast *channel.State
+		if subOpen && r.NestedCh[0] != nil {
+			nestedLast = r.LastAgreed(r.NestedCh[0].ID())
+			if nestedLast == nil {
+				problems = append(problems, "no state of the nested sub-channel was enabled by both parties")
+				break
+			}
+			s.Count("scenarios_with_nested_sub_channel", 1)
+		}
 		for a := 0; a < sc.Assets; a++ {
 			total := new(big.Int)
 			for i := 0; i < 2; i++ {
@@ -165,6 +175,9 @@ func Evaluate(s sink.Sink, prop string, r *scen.Run, completed, sample bool) {
 				want := new(big.Int).Sub(last.Balances[a][i], funded)
 				if subOpen {
 					want.Add(want, subLast.Balances[a][i])
+				}
+				if nestedLast != nil {
+					want.Add(want, nestedLast.Balances[a][i])
 				}
 				got := r.Delta(i, a)
 				total.Add(total, got)
